@@ -354,6 +354,9 @@ def outcome : P ImplOutcome := do
   let t ← tok
   if t == "err" then pure ⟨false, false, [], []⟩
   else if t == "errd" then pure ⟨false, true, [], []⟩
+  else if t == "errm" then do
+    let ms ← listOf implMsg
+    pure ⟨false, false, ms, []⟩
   else if t == "ok" then do
     let ms ← listOf implMsg
     let ss ← listOf (do let a ← nat; let b ← nat; let c ← bool01; pure (a, b, c))
